@@ -1231,7 +1231,8 @@ class Index:
                 )
                 sha1_writer.close()
         except:
-            f.close()
+            # Never commit a partially written index over the old one
+            f.abort()
             raise
 
     def read(self) -> None:
